@@ -22,6 +22,8 @@ type SysOpts struct {
 	MaxInc       int  `json:"max_incarnations"`
 	// Prefix is a history replayed before exploration starts (non-initial start states).
 	Prefix []string `json:"prefix"`
+	// Init runs on the fresh world before the initial publisher and the prefix (not serialised).
+	Init func(x *X) `json:"-"`
 }
 
 // Sys implements seqx.Sys over one X.
@@ -51,6 +53,9 @@ func NewSys(o SysOpts, check func(s *Sys) []seqx.Viol) *Sys {
 	}
 	if o.Frame > 0 {
 		s.X.FrameSize = o.Frame
+	}
+	if o.Init != nil {
+		o.Init(s.X)
 	}
 	if o.StartPub {
 		if ok, err := s.X.PubArrive(); err != nil || !ok {
